@@ -938,11 +938,13 @@ def process_commandline(out: OutputBuffer, args: List[str]) -> 'AuditConf':  # p
         list_policies(out, aconf.verbose)
         sys.exit(exitcodes.GOOD)
 
+    port_in_target = False
     if aconf.client_audit is False and aconf.target_file is None:
-        if oport is not None:
-            host = argument.host
-        else:
-            host, port = Utils.parse_host_and_port(argument.host)
+        # Always parse the target, so that -p can be combined with the "host:port", "[IPv6]" and "[IPv6]:port" forms.  As with entries of a targets file, -p is only the default: a port given in the target itself takes precedence.
+        host, port = Utils.parse_host_and_port(argument.host, default_port=-1)
+        port_in_target = port != -1
+        if not port_in_target:
+            port = 22
 
         if not host and aconf.target_file is None:
             out.fail("target host is not specified", write_now=True)
@@ -952,10 +954,12 @@ def process_commandline(out: OutputBuffer, args: List[str]) -> 'AuditConf':  # p
         port = 2222
 
     if oport is not None:
-        port = Utils.parse_int(oport)
-        if port < 1 or port > 65535:
+        oport_int = Utils.parse_int(oport)
+        if oport_int < 1 or oport_int > 65535:
             out.fail("port must be greater than 0 and less than 65535: {}".format(oport), write_now=True)
             sys.exit(exitcodes.UNKNOWN_ERROR)
+        if not port_in_target:
+            port = oport_int
 
     aconf.host = host
     aconf.port = port
